@@ -908,8 +908,14 @@ func ruleC06Snapstep(c *Ctx) {
 				ok = false
 				detail = "files := " + fv + " but UserCreatedSnap := " + uv
 			}
-			// no return between the two updates
+			// no return between the two updates, whichever comes first
 			a, b := fs[i], us[i]
+			if a.Block() == b.Block() && instrIndex(b) < instrIndex(a) {
+				a, b = b, a
+			} else if a.Block() != b.Block() && len(Query{Fn: fn, Start: b, IsSite: func(in ssa.Instruction) bool { return in == a }}.Run()) > 0 &&
+				len(Query{Fn: fn, Start: a, IsSite: func(in ssa.Instruction) bool { return in == b }}.Run()) == 0 {
+				a, b = b, a
+			}
 			ws := Query{Fn: fn, Start: a, Gen: func(in ssa.Instruction) bool { return in == b }, IsSite: func(in ssa.Instruction) bool { _, ok := in.(*ssa.Return); return ok }}.Run()
 			if len(ws) > 0 {
 				ok = false
@@ -982,14 +988,44 @@ func ruleC06Snapstep(c *Ctx) {
 			c.Bad(rule, FnName(fn)+" | SnapIndx", "", "openLiveChain must set SnapIndx under the member's UserCreated flag", nil)
 		}
 	}
-	// RemoveIndex recomputes SnapIndx as the last true entry
+	// RemoveIndex recomputes SnapIndx as the LAST true entry: an ascending scan that runs to its
+	// end (every later true entry overwrites), or a descending scan that stops at the first hit
 	if fn := c.Anchor(rule, fDD+"RemoveIndex"); fn != nil {
 		st := StoresTo(fn, "diffDisk", "SnapIndx")
-		c.Guard(rule, fn, st, "SnapIndx = i", nil, atom("entry is user created", "$0.UserCreatedSnap[*]"))
 		R := NewRenderer(fn)
+		const desc = "(-* +len($0.UserCreatedSnap) -1)"
 		for _, s := range st {
-			if R.V(s.(*ssa.Store).Val) != "*" {
-				c.Bad(rule, FnName(fn)+" | SnapIndx value", c.P.InstrPos(s), "SnapIndx receives "+R.V(s.(*ssa.Store).Val), nil)
+			v := R.V(s.(*ssa.Store).Val)
+			// does control return to the loop after the store?
+			loops := false
+			var head *ssa.BasicBlock
+			if phi, ok := strip(s.(*ssa.Store).Val).(*ssa.Phi); ok {
+				head = phi.Block()
+			} else if bo, ok := strip(s.(*ssa.Store).Val).(*ssa.BinOp); ok && isRangeIndex(bo) {
+				// range over a slice: the index is phi+1, computed in the loop head
+				head = bo.Block()
+			} else if ex, ok := s.(*ssa.Store).Val.(*ssa.Extract); ok {
+				if nx, ok := ex.Tuple.(*ssa.Next); ok {
+					head = nx.Block()
+				}
+			}
+			if head != nil {
+				hd := head
+				loops = len(Query{Fn: fn, Start: s, IsSite: func(in ssa.Instruction) bool { return in.Block() == hd }}.Run()) > 0
+			}
+			switch {
+			case v == "*" && loops:
+				c.Guard(rule, fn, []ssa.Instruction{s}, "SnapIndx = i", nil, atom("entry is user created", "$0.UserCreatedSnap[*]"))
+				c.OK(rule, FnName(fn)+" | SnapIndx is the last user-created entry", c.P.InstrPos(s), "ascending scan, runs to the end", true)
+			case v == desc && !loops && head != nil:
+				c.Guard(rule, fn, []ssa.Instruction{s}, "SnapIndx = i", nil, atom("entry is user created", "$0.UserCreatedSnap[-* +len($0.UserCreatedSnap) -1]"))
+				c.OK(rule, FnName(fn)+" | SnapIndx is the last user-created entry", c.P.InstrPos(s), "descending scan, stops at the first hit", true)
+			case v == "*":
+				c.Bad(rule, FnName(fn)+" | SnapIndx is the last user-created entry", c.P.InstrPos(s), "the ascending scan stops at the FIRST user-created entry (the loop is left after the store)", nil)
+			case v == desc:
+				c.Bad(rule, FnName(fn)+" | SnapIndx is the last user-created entry", c.P.InstrPos(s), "the descending scan goes on after the first hit: SnapIndx ends up as the LOWEST user-created entry", nil)
+			default:
+				c.Bad(rule, FnName(fn)+" | SnapIndx value", c.P.InstrPos(s), "SnapIndx receives "+v, nil)
 			}
 		}
 		if len(st) == 0 {
